@@ -37,7 +37,7 @@ using namespace std;
 int backup_copy_file(const char *filename, const vector<UINT8> &data)
 {
    char  newpath[1024];
-   char  md5_str_in[33];
+   char  md5_str_in[33] = { 0 };
    char  md5_str[34];
    UINT8 dig[16];
 
@@ -62,7 +62,8 @@ int backup_copy_file(const char *filename, const vector<UINT8> &data)
 
       if (fgets(buffer, sizeof(buffer), thefile) != nullptr)
       {
-         for (int i = 0; buffer[i] != 0; i++)
+         // the recorded MD5 is 32 hex digits: never copy more than md5_str_in can hold
+         for (int i = 0; i < 32 && buffer[i] != 0; i++)
          {
             if (unc_isxdigit(buffer[i]))
             {
